@@ -449,9 +449,12 @@ theorem C20_src_extract (d : D) :
       DeferredSkel.Guard.holds]
   · simp [DeferredSkel.extractI, extractOp, Generated.DeferredSrc.extractResult, h, DeferredSkel.firstArm, DeferredSkel.Guard.holds]
 
-/-- `SynchronousDeferredRunTest._run_user` is `maybeDeferred`, `addErrback(self._got_user_failure)`, `extract_result` -/
-theorem C20_src_run_user (b : Beh) : DeferredSkel.runUserI Generated.DeferredSrc.runUser b = some (runUser b) := by
+/-- `SynchronousDeferredRunTest._run_user` is `maybeDeferred`, `addErrback(self._got_user_failure)`, `extract_result`, and the errback
+`_got_user_failure` reports EVERY failure it is given as the user's exception - no exception class is let through (seed C20-f) -/
+theorem C20_src_run_user (b : Beh) :
+    DeferredSkel.runUserI Generated.DeferredSrc.runUser Generated.DeferredSrc.gotUserFailure b = some (runUser b) := by
   have e : Generated.DeferredSrc.runUser = DeferredSkel.refRunUser := by decide
-  rw [e]; exact DeferredSkel.runUserI_ref b
+  have e2 : Generated.DeferredSrc.gotUserFailure = DeferredSkel.refGotUserFailure := by decide
+  rw [e, e2]; exact DeferredSkel.runUserI_ref b
 
 end TTV.Props.C20
